@@ -394,15 +394,12 @@ def c16(tier, seed):
 def c07(tier, seed):
     shapes = regex_shapes('C07', tier, seed, cap_thorough=20)
     costs = S._costs()
-    if tier == 'quick':
-        # histories multiply the paths of a shape by 64: the history harness takes the cheapest shapes that still contain
-        # every operator; the wrapper harness (no selector product) takes all quick shapes
-        C = 'char'
-        hist = [('concat', C, C), ('union', C, C), ('inter', ('star', C), ('comp', C)), ('comp', ('concat', C, 'all')),
-                ('diff', 'all', ('concat', C, 'all')), ('loop', C), ('concat', ('star', C), C), ('union', ('comp', C), C),
-                ('diff', C, ('comp', C)), ('inter', ('comp', C), ('comp', C)), ('inter', ('plus', 'allchar'), C)]
-    else:
-        hist = shapes
+    # histories multiply the paths of a shape; the history harness uses a hand-picked list containing every operator
+    # (both tiers); the wrapper harness (no selector product) takes the tier's shapes
+    C = 'char'
+    hist = [('concat', C, C), ('union', C, C), ('inter', ('star', C), ('comp', C)), ('comp', ('concat', C, 'all')),
+            ('diff', 'all', ('concat', C, 'all')), ('loop', C), ('concat', ('star', C), C), ('union', ('comp', C), C),
+            ('diff', C, ('comp', C)), ('inter', ('comp', C), ('comp', C)), ('inter', ('plus', 'allchar'), C)]
     steps, b = (1, 2) if tier == 'quick' else (2, 2)
     jobs = []
     names = ['char', 'concat', 'union', 'complement', 'derivative', 'compile', 'emptiness', 'star']
